@@ -732,7 +732,8 @@ def _rawsvg_docs(
     config: FontConfig, ttfont: ttLib.TTFont, color_glyphs: Sequence[ColorGlyph]
 ) -> Sequence[Tuple[str, int, int]]:
     doc_list = []
-    for color_glyph in color_glyphs:
+    # SVG document records must be sorted by glyph id; inputs needn't be (e.g. .notdef)
+    for color_glyph in sorted(color_glyphs, key=lambda c: c.glyph_id):
         svg = (
             # all the scaling and positioning happens in "transform" below
             color_glyph.svg.remove_attributes(("width", "height", "viewBox"))
